@@ -37,6 +37,10 @@ func (nv *NodeVisitor) Visit(node ast.Node) ast.Visitor {
 	log := zerolog.Ctx(nv.ctx)
 
 	switch n := node.(type) {
+	case *ast.FuncDecl, *ast.FuncLit:
+		// Types declared inside a function are not package-level declarations
+		// and can't be mocked. Don't descend into function bodies.
+		return nil
 	case *ast.TypeSpec:
 		log := log.With().
 			Str("node-name", n.Name.Name).
